@@ -50,6 +50,14 @@ theorem find_positions_sound (data : List Int) (x : Int) (h : findPosition data 
     0 ≤ findPosition data x ∧ data[(findPosition data x).toNat]? = some x :=
   findPosition_sound rfl h
 
+/-- `find_positions` is what its docstring says: the index of the **first** occurrence, `-1` exactly if
+the value does not occur (this is where the stability of the argsort is used) -/
+theorem find_positions_first (data : List Int) (x : Int) :
+    (findPosition data x = -1 ∧ x ∉ data) ∨
+    (∃ (i : Nat), findPosition data x = (i : Int) ∧ data[i]? = some x ∧
+        ∀ (j : Nat), data[j]? = some x → i ≤ j) :=
+  findPosition_first data x
+
 /-- **Refusal is pure.** If the decision refuses (`Not enough free memory` / `Fragmentation …`) for a
 name that is not uploaded, `upload` leaves the driver state exactly as it was. (The decision function
 itself is a pure function of its arguments; the harness checks that the real one does not write to its
